@@ -23,6 +23,10 @@ CHECKS = {
             "Legal transitions of a stored mint quote as a precondition of every UpdateMintQuoteState call site (UNPAID->PAID only when the backend reports settled, PAID->PENDING->ISSUED, revert to the pre-signing state); MintTokens: success implies the quote was PAID (after the poll) before and ISSUED after, outputs <= quote amount, signatures stored; an ISSUED quote is always refused; the invoice watcher re-reads the quote after its blocking wait (yield point) and only moves UNPAID to PAID.",
             "Sequential histories plus the yield point of the invoice watcher; concurrent mint requests are not claimed. NUT-20 signature clause: see evidence (claimed only when the nut20 contracts discharge). Assumed: storage.MintDB and lightning.Client contracts, Schnorr unforgeability not decided.",
             "DESIGN.md §8 C03"),
+    "C04": (True,
+            "verifyProofs proved to establish, for every input of Swap and MeltTokens: secret length <= 512, keyset id known in the map of ALL keysets, amount is a key of THAT keyset, C is hex and parses as a point, and pt(C) = k(id, amount) * hash_to_curve(secret) - the key taken from exactly (id, amount) of the proof, never from the active keyset; crypto.verify/Verify proved equivalent to that equation from the algebraic contracts of the secp256k1 calls they make; HashToCurve proved equal to the NUT-00 spec function (loop invariant over the counter search).",
+            "Assumed: algebraic contracts of the decred secp256k1 library (A-LIB2: AsJacobian, ScalarMultNonConst, ToAffine, NewPublicKey, ParsePubKey, IsEqual), sha256/hex as uninterpreted functions. Hardness of forging C is not decided (crypto assumption). Completeness (honest proofs accepted) only through crypto.Verify's completeness clause.",
+            "DESIGN.md §8 C04"),
     "C05": (True,
             "Outcome table of MeltTokens and GetMeltQuoteState as postconditions over the (arbitrary) answers of the Lightning interface, recorded in ghost variables: PAID only on Succeeded (pay call, or status lookup after a failed pay call) with that preimage stored and inputs spent; UNPAID and released only on failed pay + (not-found | lookup says Failed); everything else PENDING with inputs locked; polls adopt final answers, ambiguous answers change nothing; ProofsStateCheck resolves pending quotes first; legal melt-quote transitions at every UpdateMeltQuote call site.",
             "Assumed: lightning.Client adapters (lnd.go, cln.go) implement the interface contract; storage.MintDB contracts; scripts of several answers follow by induction over the per-call contracts (A-META).",
@@ -31,6 +35,14 @@ CHECKS = {
             "(a) zero-annotation no-panic sweep (index, slice bounds, nil map, division, type assertion, nil dereference, explicit panic, library preconditions such as strings.Repeat count >= 0) of the mint API functions under contract, with the representation invariant as only precondition; (b) failure atomicity: an error without storage/Lightning-query fault leaves spent, pending, signatures and quote rows unchanged (Swap, MintTokens, MeltTokens), i.e. validation provably precedes mutation.",
             "Panics inside third-party libraries are assumed away (A-LIB1). HTTP handlers are covered by C20 when claimed. Functions without contract are not swept (listed in evidence).",
             "DESIGN.md §8 C06"),
+    "C12": (True,
+            "VerifyP2PKLockedProof: what it hands to HasValidSignatures is pinned at the call site for all inputs (message = sha256(secret), threshold = n_sigs or 1, keys = lock key + co-signers only when a threshold is set; refund branch only after the locktime with the refund keys and threshold 1), acceptance without signatures only after the locktime without refund keys, witness non-empty and duplicate-free; ProofsSigAll <=> some input carries SIG_ALL wherever it sits; Swap: any SIG_ALL input => verifyBlindedMessages ran: all inputs SIG_ALL with equal key lists and thresholds, every output signed over sha256(decoded B_); MeltTokens refuses SIG_ALL inputs; ParseP2PKTags total (no panic) on all tag lists; the library's signing helpers sign exactly the message the verifier hashes. HasValidSignatures: each counted signature consumes a key (cardinality invariant proved); its full matching semantics is a BOUNDED stand-in (bounded/hvs).",
+            "Assumed: determinism of JSON decoding of secrets/witnesses and of ParseP2PKTags/PublicKeys as functions of their inputs (named spec functions), schnorr library contracts, wall clock arbitrary. Bounded (not proved): matching semantics of HasValidSignatures within the bound stated in evidence. Schnorr unforgeability not decided.",
+            "DESIGN.md §8 C12"),
+    "C13": (True,
+            "VerifyHTLCProof: before the locktime acceptance implies the witness preimage is hex, the lock value has 64 characters and hex(sha256(decoded preimage)) equals it, and with a threshold the signatures are non-empty, duplicate-free and HasValidSignatures accepted them over sha256(secret) with exactly the listed keys and threshold; after the locktime only the refund rule; SIG_ALL HTLC swaps: every output carries the verified preimage and signatures (call-site clauses in verifyBlindedMessages); the HTLC helpers sign exactly what the mint verifies (inputs and outputs).",
+            "Assumed: as C12 (JSON determinism, schnorr contracts, clock). Bounded: HasValidSignatures matching semantics (bounded/hvs). SHA-256 preimage resistance not decided.",
+            "DESIGN.md §8 C13"),
     "C15": (True,
             "ProofsStateCheck: result is pointwise the ghost state in request order with the stored witness (SPENT over PENDING over UNSPENT), proved incl. the map-range resolution loop and the two IndexFunc closures; RestoreSignatures: returns exactly signed messages of the request, paired with the stored amount/id/C_/e/s; every successful Swap/MintTokens/MeltTokens stores its signatures / spent proofs.",
             "Assumed: storage.MintDB contracts (SQL text: bounded conformance when present); slices.IndexFunc modelled natively.",
